@@ -47,6 +47,29 @@ CHECKS = {
         note="Partial: deser_ti (ser_ti x) = Ok (norm x) is not yet a Coq theorem. ConfigParser text parsing and float repr are "
              "CPython's; values containing '%' (interpolation) are outside the generated domain (O2).",
         design="DESIGN.md section 6 C04"),
+    "C06": dict(
+        text="Validation is modelled as an interpreter (Base/Obj.v) over validator tables REGENERATED from the source on every run: "
+             "the per-class inventory of _validate* methods (exactly what validate() runs) and the method bodies translated from "
+             "the AST into the library's assertion vocabulary (12 context-dependent validators hand-modelled, their AST hashes "
+             "regenerated). Coq theorems: C06_vexpr_error_class (the vocabulary raises only TypeError/ValueError) and "
+             "C06_translated_validators_raise_type_or_value_error (side condition on every regenerated body). Tie: for each of "
+             "the seven formats, valid objects with one field at any position replaced by a value outside its documented domain "
+             "(rule table written from the documentation) are dumped by the real library and by the model; outcome classes are "
+             "compared; the oracle demands TypeError/ValueError.",
+        note="Partial: 'dump x = Ok <-> Valid x' against a documentation-derived predicate is decided by the corruption "
+             "correspondence (sampled), not yet by a Coq equivalence theorem. Known findings K4 (element types of arches and "
+             "path tables are not validated).",
+        design="DESIGN.md section 6 C06"),
+    "C07": dict(
+        text="Coq theorems about the modelled readers: C07_header_gate (from 1.1 on a document naming another metadata type is "
+             "rejected with ValueError), C07_header_malformed_version, C07_loaded_compose_is_valid (whatever a successful load "
+             "returns has passed the regenerated Compose validators). Tie: valid current-version documents of the five JSON "
+             "formats and .treeinfo texts, each with one corruption (other header type, mangled version, deleted section or "
+             "required key, one value outside its documented domain at any position) are loaded by the real library and by the "
+             "model readers; accepted-vs-rejected is compared and, when accepted, the loaded object must be writable.",
+        note="Partial: 'load d = Ok x -> Valid x' is proved for the compose section and the header; for the other sections it is "
+             "decided by the load correspondence. Reader coercions (bool(), int(), lower()) are part of the modelled reader (O10).",
+        design="DESIGN.md section 6 C07"),
     "C08": dict(
         text="Coq theorems about the JSON writer model: C08_json_same_content (two documents whose mappings have the same "
              "content at every depth print to the same bytes), C08_reordering_is_same_content (any permutation of a mapping's "
